@@ -39,6 +39,8 @@ import (
 	"rivaas.dev/app"
 	riverrors "rivaas.dev/errors"
 	"rivaas.dev/metrics"
+	"rivaas.dev/middleware/basicauth"
+	"rivaas.dev/middleware/recovery"
 	"rivaas.dev/router"
 	"rivaas.dev/tracing"
 	rroute "rivaas.dev/router/route"
@@ -56,6 +58,9 @@ type Cfg struct {
 	NoRoute    bool
 	App        bool // serve through app.App (app-level pool on top of the router pool)
 	Obs        bool `json:",omitempty"` // app with observability (metrics + tracing recorder: wraps the response writer per request)
+	// a second router with the same routes but another configuration (it trusts the peer as a proxy) serves the requests
+	// marked Alt: both take their contexts from the one process-wide pool
+	Two bool `json:",omitempty"`
 }
 
 type routeDef struct {
@@ -64,6 +69,7 @@ type routeDef struct {
 	kind                 string // static | param | wild | treestatic
 	intParam             string
 	compiledOnly         bool // registered only when route compilation is on (K03a witness pair)
+	chain                string // "auth": recovery, basicauth (user alice), then the probe handler
 }
 
 const tenParams = "/p/:a/:b/:c/:d/:e/:f/:g/:h/:i/:j"
@@ -79,6 +85,8 @@ var table = []routeDef{
 	{method: "GET", pattern: "/c/:n", hid: 9, kind: "param", intParam: "n"},
 	{method: "GET", pattern: tenParams, hid: 10, kind: "param"},
 	{method: "GET", pattern: "/star*", hid: 16, kind: "treestatic"},
+	// behind recovery + basicauth: the handler runs only with valid credentials; a panic in it is recovered inside the chain
+	{method: "GET", pattern: "/ba/:id", hid: 40, kind: "param", chain: "auth"},
 	// a catch-all next to a parameter branch below the same prefix: the tree always descends into the parameter branch
 	// (static > param > wildcard, no backtracking), so everything but /f/<id>/meta is a miss
 	{method: "GET", pattern: "/f/*", hid: 30, kind: "wild"},
@@ -90,6 +98,10 @@ var table = []routeDef{
 	{method: "GET", pattern: "/vs", ver: "v1", hid: 20, kind: "static"},
 	{method: "GET", pattern: "/vd/:id", ver: "v1", hid: 21, kind: "param"},
 	{method: "GET", pattern: nineParamsV, ver: "v1", hid: 26, kind: "param"},
+	// a method that has routes in the version trees only (no main tree for it: the versioned static path then takes
+	// the first pooled context itself instead of the one the main-tree lookup just gave back)
+	{method: "PUT", pattern: "/vput", ver: "v1", hid: 27, kind: "static"},
+	{method: "PUT", pattern: "/vput/:id", ver: "v1", hid: 28, kind: "param"},
 	{method: "GET", pattern: "/vs", ver: "v2", hid: 22, kind: "static"},
 	{method: "GET", pattern: "/vd/:id", ver: "v2", hid: 23, kind: "param"},
 	{method: "GET", pattern: "/vs", ver: "v0", hid: 24, kind: "static"},
@@ -241,6 +253,8 @@ type Req struct {
 	ResetB bool `json:",omitempty"`
 	// the nested request is served with this handler's c.Response as its ResponseWriter (an app mounted inside a handler)
 	NestShare bool `json:",omitempty"`
+	Alt       bool `json:",omitempty"` // served by the second router (Cfg.Two)
+	Auth      bool `json:",omitempty"` // carries valid Basic credentials (user alice)
 }
 
 type Case struct {
@@ -322,8 +336,9 @@ func sameView(a, b *probeView) bool {
 
 // probe records the view at handler start (idx: the request index read from the request at handler entry).
 func probe(c *router.Context, idx, hid int, presence int) *probeView {
+	progress.Add(1)
 	v := snapshot(c, hid, presence)
-	v.acc = acceptResults(c) // observes and dirties the cache
+	v.acc = acceptResults(c) + "|ip:" + c.ClientIP() + "|user:" + basicauth.Username(c) // observes and dirties the cache
 	mu.Lock()
 	views[idx] = v
 	mu.Unlock()
@@ -331,7 +346,7 @@ func probe(c *router.Context, idx, hid int, presence int) *probeView {
 }
 
 var (
-	curHandler http.Handler // the router/app of the running history (nested requests)
+	curHandler func(i int) http.Handler // the router/app that serves request i of the running history (nested requests)
 	curCase    *Case
 	broken     bool // a handler was entered with c.Request == nil: the context is shared with a request that released it
 )
@@ -364,7 +379,7 @@ func handle(c *router.Context, hid int, presence int, bind func(q Req) string) {
 				}
 			}()
 			if q.NestShare && c.Response != nil {
-				curHandler.ServeHTTP(c.Response, newRequest(curCase.H[q.Nested], q.Nested))
+				curHandler(q.Nested).ServeHTTP(c.Response, newRequest(curCase.H[q.Nested], q.Nested))
 				return
 			}
 			rec := httptest.NewRecorder()
@@ -376,7 +391,7 @@ func handle(c *router.Context, hid int, presence int, bind func(q Req) string) {
 				}
 				mu.Unlock()
 			}()
-			curHandler.ServeHTTP(rec, newRequest(curCase.H[q.Nested], q.Nested))
+			curHandler(q.Nested).ServeHTTP(rec, newRequest(curCase.H[q.Nested], q.Nested))
 		}()
 		after := snapshot(c, hid, presence)
 		mu.Lock()
@@ -396,7 +411,13 @@ func handle(c *router.Context, hid int, presence int, bind func(q Req) string) {
 		v.acc += "|bind:" + bound
 		mu.Unlock()
 	}
-	dirty(c, q.Dirty)
+	dirtyIdx(c, q.Dirty, idx)
+	// the error list the API hands out is a value of this request: keep it and look at it again after the history
+	if es := c.Errors(); len(es) > 0 {
+		mu.Lock()
+		kept = append(kept, keptErrs{idx, es, append([]error(nil), es...)})
+		mu.Unlock()
+	}
 	if c.Response != nil {
 		c.Response.WriteHeader(200)
 		_, _ = fmt.Fprintf(c.Response, "<r%d>", idx) // the response is part of the request's own state: checked at its recorder
@@ -458,12 +479,20 @@ func errorFormatters() app.Option {
 	})
 }
 
-func dirty(c *router.Context, ds []Dirty) {
+type keptErrs struct {
+	idx  int
+	list []error // what c.Errors() returned
+	copy []error // its elements at that moment
+}
+
+var kept []keptErrs
+
+func dirtyIdx(c *router.Context, ds []Dirty, idx int) {
 	for _, d := range ds {
 		switch d.Kind {
 		case "E":
 			for i := 0; i < d.N; i++ {
-				c.Error(errProbe)
+				c.Error(fmt.Errorf("probe error of request %d: %w", idx, errProbe))
 			}
 		case "A":
 			c.Abort()
@@ -606,7 +635,17 @@ func routerOpts(c Cfg) []router.Option {
 	return opts
 }
 
-func build(c Cfg) http.Handler {
+// build returns the handler of the configuration and, with Cfg.Two, a second router with the same routes that trusts
+// the peer (192.0.2.0/24, where httptest requests come from) as a proxy.
+func build(c Cfg) (http.Handler, http.Handler) {
+	h := build1(c, nil)
+	if !c.Two || c.App {
+		return h, h
+	}
+	return h, build1(c, []router.Option{router.WithTrustedProxies(router.WithProxies("192.0.2.0/24"))})
+}
+
+func build1(c Cfg, extra []router.Option) http.Handler {
 	var r *router.Router
 	var a *app.App
 	if c.App {
@@ -626,7 +665,7 @@ func build(c Cfg) http.Handler {
 		}
 		r = a.Router()
 	} else {
-		r = router.MustNew(routerOpts(c)...)
+		r = router.MustNew(append(routerOpts(c), extra...)...)
 	}
 	for _, d := range table {
 		if !active(d, c) {
@@ -637,6 +676,9 @@ func build(c Cfg) http.Handler {
 			h = []router.HandlerFunc{a.WrapHandler(appBefore), a.WrapHandler(appHandler(d.hid))}
 		} else {
 			h = []router.HandlerFunc{routerHandler(d.hid)}
+		}
+		if d.chain == "auth" {
+			h = append([]router.HandlerFunc{recovery.New(), basicauth.New(basicauth.WithUsers(map[string]string{"alice": "pw"}))}, h...)
 		}
 		if d.ver != "" {
 			var vr *router.VersionRouter
@@ -711,6 +753,9 @@ func predictSteps(c Cfg, q Req, idx int) (string, []step, bool) {
 		return out
 	}
 	d, ps, ok := matchTable(c, q.Method, q.Path, "")
+	if ok && d.chain == "auth" && !q.Auth {
+		return "basicauth.401", nil, false // the middleware answers, no probe handler runs
+	}
 	if ok {
 		switch {
 		case c.Compiled && d.kind == "static":
@@ -788,7 +833,32 @@ func newRequest(q Req, idx int) *http.Request {
 	if q.Body != "" {
 		req.Header.Set("Content-Type", "application/json")
 	}
+	req.Header.Set("X-Forwarded-For", forwardedFor) // honoured only by a router that trusts the peer
+	if q.Auth {
+		req.SetBasicAuth("alice", "pw")
+	}
 	return req
+}
+
+const forwardedFor = "203.0.113.9"
+
+// recovered: the route's chain has the recovery middleware, a handler panic does not leave ServeHTTP
+func recovered(c Cfg, q Req) bool {
+	d, _, ok := matchTable(c, q.Method, q.Path, "")
+	return ok && d.chain == "auth"
+}
+
+// expectedExtras: what ClientIP() and basicauth.Username() show on a context that belongs to this request alone
+func expectedExtras(c Cfg, q Req) string {
+	ip := "192.0.2.1"
+	if q.Alt && c.Two && !c.App {
+		ip = forwardedFor
+	}
+	user := ""
+	if d, _, ok := matchTable(c, q.Method, q.Path, ""); ok && d.chain == "auth" && q.Auth {
+		user = "alice"
+	}
+	return "|ip:" + ip + "|user:" + user
 }
 
 // field indexes of router.Context (declaration order) for the retained-object observation
@@ -882,6 +952,7 @@ func runNegotiation(id string, cs Case) string {
 			}
 		}
 		served.Add(1)
+		progress.Add(1)
 		c.Response.WriteHeader(200)
 	})
 	runtime.GOMAXPROCS(4)
@@ -939,24 +1010,50 @@ func runCase(id string, cs Case) string {
 			done <- runHistory(id, cs)
 		}
 	}()
-	select {
-	case line := <-done:
-		return line
-	case <-time.After(historyTimeout):
-		// the stuck goroutines are abandoned; the next history builds its own router
-		mu = sync.Mutex{}
+	// a history is stuck when no handler was entered and no request completed for a whole historyTimeout window; a
+	// history that keeps making progress on an overloaded machine gets up to six windows and is then discarded
+	// (counted, no verdict): slowness is not an observation
+	last := progress.Load()
+	for w := 0; ; w++ {
+		select {
+		case line := <-done:
+			return line
+		case <-time.After(historyTimeout):
+		}
+		now := progress.Load()
+		if now != last && w < 5 {
+			last = now
+			continue
+		}
+		mu = sync.Mutex{} // the stuck goroutines are abandoned; the next history builds its own router
+		if now != last {
+			slowDiscards.Add(1)
+			return ""
+		}
 		l := hx.NewLine(id)
 		l.Tok("H").Nat(0).Nat(0).Sep().Tok("T")
 		return l.String() + hx.Comment(cs)
 	}
 }
 
+var (
+	progress     atomic.Int64 // bumped whenever a handler is entered or a request completes
+	slowDiscards atomic.Int64
+)
+
 func runHistory(id string, cs Case) string {
-	h := build(cs.C)
+	hA, hB := build(cs.C)
+	pick := func(i int) http.Handler {
+		if i < len(cs.H) && cs.H[i].Alt {
+			return hB
+		}
+		return hA
+	}
 	mu.Lock()
 	views = map[int]*probeView{}
+	kept = nil
 	broken = false
-	curHandler = h
+	curHandler = pick
 	curCase = &cs
 	mu.Unlock()
 	if cs.Conc > 0 {
@@ -986,7 +1083,8 @@ func runHistory(id string, cs Case) string {
 			}
 			mu.Unlock()
 		}()
-		h.ServeHTTP(rec, newRequest(cs.H[i], i))
+		pick(i).ServeHTTP(rec, newRequest(cs.H[i], i))
+		progress.Add(1)
 		mu.Lock()
 		v := views[i]
 		mu.Unlock()
@@ -1024,6 +1122,15 @@ func runHistory(id string, cs Case) string {
 	mu.Lock()
 	if broken {
 		panicked = true // a handler ran on a context whose Request another request had already cleared
+	}
+	for _, k := range kept {
+		same := len(k.list) == len(k.copy)
+		for i := 0; same && i < len(k.list); i++ {
+			same = k.list[i] == k.copy[i]
+		}
+		if v := views[k.idx]; !same && v != nil {
+			v.unstable = true // the error list handed to request k.idx changed under it: it shows another request's errors
+		}
 	}
 	mu.Unlock()
 	// reference for the Accept helpers: the same request on a brand-new context
@@ -1091,13 +1198,13 @@ func runHistory(id string, cs Case) string {
 				l.Tok("X").Str(d.K)
 			}
 		}
-		if o.q.Panic {
+		if o.q.Panic && !recovered(cs.C, o.q) {
 			l.Tok("P")
 		} else {
 			l.Tok("N").I64(1) // the chain ran: index advanced
 		}
 		ref := router.NewContext(httptest.NewRecorder(), newRequest(o.q, o.idx))
-		refAcc := acceptResults(ref)
+		refAcc := acceptResults(ref) + expectedExtras(cs.C, o.q)
 		if cs.C.App {
 			params := map[string]string{}
 			for _, st := range o.steps {
@@ -1200,13 +1307,17 @@ func genReq(r *hx.Rand, c Cfg) Req {
 		{"k03a", "GET", tenPath(r, "/m/s", 9) + "/zz"},
 		{"catchall-vs-param", "GET", "/f/" + v(r) + hx.Pick(r, []string{"/meta", "/raw", "", "/rev/" + v(r) + "/diff", "/rev/" + v(r) + "/blame", "/rev"})},
 		{"non-origin-target", hx.Pick(r, []string{"OPTIONS", "GET"}), hx.Pick(r, []string{"*", "relative", "host.example:443"})},
+		{"basicauth", "GET", "/ba/" + v(r)},
 		{"ver-static", "GET", "/vs"},
+		{"ver-only-method", "PUT", hx.Pick(r, []string{"/vput", "/vput/" + v(r), "/vput/" + v(r) + "/x", "/vs"})},
 		{"ver-param", "GET", "/vd/" + v(r)},
 		{"ver-nine", "GET", tenPath(r, "/vq", 9)},
 		{"ver-miss", "GET", hx.Pick(r, []string{"/vmiss", "/vd/" + v(r) + "/more"})},
 	}
 	x := hx.Pick(r, gs)
 	q := Req{Method: x.method, Path: x.path, Ver: ver, Accept: hx.Pick(r, accepts), Dirty: genDirty(r), Class: x.class}
+	q.Auth = x.class == "basicauth" && r.Chance(2, 3)
+	q.Alt = c.Two && r.Chance(1, 2)
 	if c.App && r.Chance(2, 3) {
 		q.Body = hx.Pick(r, []string{`{"a":1,"b":"x"}`, `{"a":2,"b":"y"}`, `{"a":9,"b":"z"}`, `{"a":2}`, `{"b":"y","c":{"d":1}}`,
 			`{"email":"not-an-email","plan":"platinum"}`, `{"email":"bob@example.com"}`, `{"plan":"pro","email":"x"}`})
@@ -1344,6 +1455,55 @@ func witnesses() []Case {
 			{Method: "GET", Path: "/f/7/rev/3/blame", Class: "catchall-vs-param"},
 			{Method: "GET", Path: "/s/a", Class: "static"},
 		}},
+		// two routers on the one pool: the second trusts the peer as a proxy; a context that keeps the other router's
+		// pointer answers ClientIP() with the other router's configuration
+		{C: Cfg{Versioning: true, Two: true}, H: []Req{
+			{Method: "GET", Path: "/s/a", Alt: true, Class: "static"},
+			{Method: "GET", Path: "/vs", Ver: "v1", Class: "ver-static"},
+			{Method: "GET", Path: "/vd/7", Ver: "v2", Alt: true, Class: "ver-param"},
+			{Method: "GET", Path: "/vs", Ver: "v2", Class: "ver-static"},
+			{Method: "GET", Path: "/d/1", Class: "param"},
+		}},
+		// (the versioned static path borrows a second context while it still holds the lookup context: both objects
+		// must have been with the other router before)
+		{C: Cfg{Versioning: true, Two: true}, H: []Req{
+			{Method: "GET", Path: "/vs", Ver: "v1", Alt: true, Class: "ver-static"},
+			{Method: "GET", Path: "/vs", Ver: "v1", Class: "ver-static"},
+			{Method: "GET", Path: "/vs", Ver: "v2", Alt: true, Class: "ver-static"},
+			{Method: "GET", Path: "/vs", Ver: "v2", Class: "ver-static"},
+		}},
+		{C: Cfg{Compiled: true, Versioning: true, Two: true}, H: []Req{
+			{Method: "GET", Path: "/vs", Ver: "v1", Alt: true, Class: "ver-static"},
+			{Method: "GET", Path: "/vs", Ver: "v1", Class: "ver-static"},
+			{Method: "GET", Path: "/vd/3", Ver: "v1", Alt: true, Class: "ver-param"},
+			{Method: "GET", Path: "/vd/4", Ver: "v1", Class: "ver-param"},
+		}},
+		{C: Cfg{Versioning: true, Two: true}, H: []Req{
+			{Method: "GET", Path: "/d/1", Alt: true, Class: "param"},
+			{Method: "PUT", Path: "/vput", Ver: "v1", Class: "ver-only-method"},
+			{Method: "PUT", Path: "/vput/9", Ver: "v1", Alt: true, Class: "ver-only-method"},
+			{Method: "PUT", Path: "/vput", Class: "ver-only-method"},
+		}},
+		{C: Cfg{Compiled: true, Versioning: true, NoRoute: true, Two: true}, H: []Req{
+			{Method: "GET", Path: "/d/1", Alt: true, Class: "param"},
+			{Method: "GET", Path: "/vs", Ver: "v1", Class: "ver-static"},
+			{Method: "GET", Path: "/nope", Alt: true, Class: "404"},
+			{Method: "GET", Path: "/s/a", Class: "static"},
+		}},
+		// an authenticated request whose handler panics (recovered inside the chain), then an anonymous request
+		{C: Cfg{}, H: []Req{
+			{Method: "GET", Path: "/ba/1", Auth: true, Panic: true, Dirty: d, Class: "basicauth"},
+			{Method: "GET", Path: "/s/a", Class: "static"},
+			{Method: "GET", Path: "/ba/2", Auth: true, Class: "basicauth"},
+			{Method: "GET", Path: "/ba/3", Class: "basicauth"},
+			{Method: "GET", Path: "/d/2", Class: "param"},
+		}},
+		// the error list a request was handed must not change when later requests collect errors on the same object
+		{C: Cfg{}, H: []Req{
+			{Method: "GET", Path: "/d/1", Dirty: []Dirty{{Kind: "E", N: 2}}, Class: "param"},
+			{Method: "GET", Path: "/d/2", Dirty: []Dirty{{Kind: "E", N: 3}}, Class: "param"},
+			{Method: "GET", Path: "/s/a", Dirty: []Dirty{{Kind: "E", N: 1}}, Class: "static"},
+		}},
 		// app: path parameters bound into a struct, ResetBinding without a second bind, then a route without that parameter
 		{C: Cfg{App: true}, H: []Req{
 			{Method: "GET", Path: "/d/secret-42", ResetB: true, Class: "param"},
@@ -1390,13 +1550,18 @@ func main() {
 				fmt.Fprintln(os.Stderr, "replay:", err)
 				os.Exit(1)
 			}
-			fmt.Fprintln(w, runCase(id, cs))
+			if line := runCase(id, cs); line != "" {
+				fmt.Fprintln(w, line)
+			}
 		}
 	case "gen":
 		st := hx.NewStats()
 		r := hx.NewRand(hx.NewRand(a.Seed).U64())
 		emit := func(id string, cs Case) {
 			line := runCase(id, cs)
+			if line == "" {
+				return // discarded: too slow on this machine (counted below)
+			}
 			fmt.Fprintln(w, line)
 			objOf := map[int]int{}
 			objs := map[uintptr]int{}
@@ -1437,6 +1602,9 @@ func main() {
 				if cs.H[i].Accept2 != "" {
 					st.Count("accept-on-two-field-lines")
 				}
+				if cs.H[i].Alt {
+					st.Count("served-by-the-second-router")
+				}
 			}
 			st.Count(fmt.Sprintf("cfg:compiled=%v,versioning=%v,noRoute=%v,app=%v,obs=%v", cs.C.Compiled, cs.C.Versioning, cs.C.NoRoute, cs.C.App, cs.C.Obs))
 			st.Counters["requests"] += len(cs.H)
@@ -1452,6 +1620,7 @@ func main() {
 		for i := 0; i < a.N; i++ {
 			c := Cfg{Compiled: r.Chance(1, 2), Versioning: r.Chance(2, 3), NoRoute: r.Chance(1, 2), App: r.Chance(1, 4)}
 			c.Obs = c.App && r.Chance(1, 2)
+			c.Two = !c.App && r.Chance(1, 3)
 			n := r.Range(2, 40)
 			h := make([]Req, n)
 			for j := range h {
@@ -1488,6 +1657,9 @@ func main() {
 		for k := 0; k < nN; k++ {
 			cs := Case{Kind: "N", G: 32, Millis: ms, Iter: r.Range(6, 30)}
 			line := runCase(fmt.Sprintf("c03-%d-n%d", a.Seed, k), cs)
+			if line == "" {
+				continue
+			}
 			fmt.Fprintln(w, line)
 			st.Count("concurrent-negotiation-cases")
 			var served int
@@ -1496,6 +1668,9 @@ func main() {
 			}
 			st.Counters["concurrent-negotiation-requests"] += served
 			st.Case(fmt.Sprintf("%+v#%d", cs, k), true)
+		}
+		if n := slowDiscards.Load(); n > 0 {
+			st.Counters["discarded:slow-but-progressing-history(overloaded machine)"] = int(n)
 		}
 		st.Emit(w)
 	}
